@@ -77,6 +77,13 @@ Example C03_example :
       [Enter 0 0 false; NextCall 0; Enter 1 0 false; Sent; Exit 1; NextRet 0; NextCall 0; Enter 2 201 false; Exit 2; NextRet 0; Exit 0] None false).
 Proof. vm_compute. reflexivity. Qed.
 
+(* a flush commits the status (200) like a write does, whatever the underlying writer can do: the chain does not
+   advance past the handler that flushed *)
+Example C03_flush_stops_the_chain :
+  serve [HNormal [AFlush] []; HNormal [AWriteHeader 404] []] None false true None
+  = Done (mkst 1 200 [] false [Enter 0 0 false; Sent; Exit 0] None false).
+Proof. vm_compute. reflexivity. Qed.
+
 Redirect "assum/C03.1" Print Assumptions C03_trace_accepted.
 Redirect "assum/C03.2" Print Assumptions C03_order_at_most_once.
 Redirect "assum/C03.3" Print Assumptions C03_no_skip.
